@@ -25,7 +25,9 @@ RULE = ("case = 1-2 watcher configurations (numprocesses 0-4, singleton, "
 ASSUMPTIONS = [
     "verdicts are relative to the simulated kernel (vfw/kernel.py), itself "
     "compared with real processes by vfw/conformance.py",
-    "max_age_variance is pinned to 0 by replacing circus.watcher.randint",
+    "the random jitter added to max_age is pinned by replacing "
+    "circus.watcher.randint: to its lower bound, or (case field randint = "
+    "'hi') to its upper bound",
     "bounded number of checks = 3 complete periodic checks after the last "
     "injected event",
 ]
@@ -54,6 +56,9 @@ def _accepted(req):
 
 def execute(case):
     h = History(case)
+    if case.get("randint") == 'hi':
+        import circus.watcher as _cw
+        _cw.randint = lambda a, b: b      # (restored when the world closes)
     viols = []
     classes = []
     w = h.world
@@ -221,6 +226,27 @@ def execute(case):
                 # max_age expiry is a change: such watchers are left out)
                 if any(wc.get("max_age") for wc in case["watchers"]):
                     classes.append('max_age-watcher')
+                    # ... but only workers older than max_age expire
+                    nk = len(w.kernel.signal_log)
+                    w.full_check()
+                    w.full_check()
+                    ages = dict((wc["name"], wc.get("max_age"))
+                                for wc in case["watchers"])
+                    for s_ in w.kernel.signal_log[nk:]:
+                        p_ = w.kernel.procs.get(s_["pid"])
+                        if p_ is None or p_.kind != 'worker' or \
+                                not ages.get(p_.owner):
+                            continue
+                        age = s_["t"] - p_.spawned_at
+                        if age < ages[p_.owner] - EPS:
+                            viols.append(Violation(
+                                'C01:expired-before-max_age',
+                                'an idle check signalled worker %d of %s '
+                                '(signal %d) at age %.3f s; max_age is %s '
+                                'and nothing else had changed' % (
+                                    s_["pid"], p_.owner, s_["sig"], age,
+                                    ages[p_.owner])))
+                            break
                 else:
                     ns, nk = (len(w.kernel.spawn_log),
                               len(w.kernel.signal_log))
@@ -285,8 +311,8 @@ def _strategy():
             if draw(st.integers(0, 5)) == 0:
                 # expiry = age > max_age at a periodic check (the variance
                 # is pinned to 0 by the harness)
-                wc["max_age"] = 1
-                wc["max_age_variance"] = 0
+                wc["max_age"] = draw(st.sampled_from([1, 1, 40]))
+                wc["max_age_variance"] = draw(st.sampled_from([0, 0, 38]))
             watchers.append(wc)
         names = [wc["name"] for wc in watchers]
         tape = draw(st.lists(behaviours(gts=tuple(sorted(set(gts)))),
@@ -324,7 +350,11 @@ def _strategy():
         ops = draw(st.lists(st.one_of(reqs, reqs, pacing_ops(), pacing_ops(),
                                       death_ops(), death_ops()),
                             min_size=1, max_size=30))
-        return {"watchers": watchers, "tape": tape, "ops": ops}
+        c = {"watchers": watchers, "tape": tape, "ops": ops}
+        if any(wc.get("max_age_variance") for wc in watchers) and \
+                draw(st.booleans()):
+            c["randint"] = 'hi'
+        return c
     return case()
 
 
